@@ -513,7 +513,7 @@ Definition tile_frames (org rowcos colcos : v3) (spr spc : Q) (MR MC th tw : Z) 
   map (fun rc0 => ((fst rc0 + 1)%Z, (snd rc0 + 1)%Z,
                    tile_pos org rowcos colcos spr spc (fst rc0) (snd rc0))) kept.
 
-(* [recorded origin; get_volume_geometry(); get_volume(args); per-frame tile positions]
+(* [recorded origin; get_volume_geometry(); get_volume(args); per-frame tile positions; inputs untouched]
    of the segmentation; a refusal of the constructor is the whole result *)
 Definition run_tiled_place (with_frames : bool) (src_org usr_org : v3) (npos rp cp : Z)
            (o_given : bool) (src_rc src_cc u_rc u_cc : v3)
@@ -536,7 +536,9 @@ Definition run_tiled_place (with_frames : bool) (src_org usr_org : v3) (npos rp 
           then VL (map (fun f => match f with (r, c, p) =>
                                    VL [VZ r; VZ c; VQ (vx p); VQ (vy p); VQ (vz p)] end)
                        (tile_frames usr_org rc cc spr spc MR MC th tw M omit))
-          else VNone]
+          else VNone;
+          (* the source image and the caller's position / orientation / measures objects are left alone *)
+          VB true]
   end.
 
 (* a volume whose affine was handed over in a caller-owned buffer: the model has
